@@ -9,6 +9,15 @@ sys.path.insert(0, VERIF)
 from harness.core import CHECKS  # noqa
 
 TABLE = {
+    "C06": dict(
+        category="exploration", design_ref="3/C06",
+        technique="enumeration of the finite (algorithm x violated clause x operation x entry point x key hand-over) matrix with Hypothesis-generated key material, must-reject oracle with a suitable-key control per cell; reference-forged MAC-with-public-key tokens; warning oracle for PEM/SSH text imported as oct",
+        text="~9000 cells per quick run, each violating exactly one clause of the statement (key type, curve, size, use, key_ops, private material) over all 35 algorithms, "
+             "sign/verify/encrypt/decrypt, compact / flattened / general / RFC 7797 / jwt / add_recipient-attached entry points and key / key set / callable hand-over; consumption-side "
+             "cells present the same key material with unsuitable metadata (or hand-built wrong-size tokens) so only the clause under test can cause the refusal; a control with the "
+             "suitable key runs per cell. ~3400 HS* tokens MACed with public encodings of the verifier's key must be refused; ~400 PEM/OpenSSH encodings imported as oct must warn.",
+        note="DONT_CARE: key_ops for dir/ECDH, RSA size on decryption, key 'alg' member; the matrix is complete for the listed clause variants, key material is sampled",
+    ),
     "C05": dict(
         category="exploration", design_ref="3/C05",
         technique="complete enumeration of the finite configuration matrix (name x allow-list shape x passing style x operation x entry point) plus Hypothesis rule-based state machine over long-lived registries, model-based oracle; consumed tokens minted by the independent reference",
